@@ -22,7 +22,7 @@ for base in "$@"; do
         echo "$o" | grep -E '^(VIOLATION|  signature|  detail|MACHINERY)' | head -12 | cut -c1-400 >> $out
       fi
     done
-    git -C /repo checkout -q -- .
+    git -C /repo checkout -q -- . ; git -C /repo clean -fdq
     rm -f /verif/replays/*.json
     echo "$line done" | tee -a $out
   done
